@@ -11,6 +11,7 @@
     reader's [from_tz_string] and the check [footer_consistent] (Proofs/TzWriterFull.v). *)
 From Coq Require Import ZArith List Bool.
 From V Require Import Base.Int Base.IO Model.TzParser Model.TzRule.
+From V Require Import Proofs.TzWriterFull.
 Import ListNotations.
 Open Scope Z_scope.
 
@@ -194,3 +195,19 @@ Definition footer_rule_res (d : bytes) : R (res (option trule)) :=
   | [] => ok None
   | s => let+ r := from_tz_string s (footer_ext_of d) in ok (Some r)
   end.
+
+(* version 2 / 3 file: accepted when the layout, the records and tables of the 64-bit block and the
+   footer text are fine, the footer rule (if the text is not blank) is accepted by the TZ-string
+   reader and agrees with the last transition *)
+Definition tzif_v23_accepts (d : bytes) : bool :=
+  v23_layout_ok d && block_ok (state_at d (off2 d) 8) && footer_text_ok (footer_of d)
+  && match footer_rule_res d with
+     | Val (Ok r) => footer_consistent (st_zone (state_at d (off2 d) 8) r)
+     | _ => false
+     end.
+Definition tzif_v23_zone (d : bytes) : timezone :=
+  st_zone (state_at d (off2 d) 8) (match footer_rule_res d with Val (Ok r) => r | _ => None end).
+
+(** ** the accepted files, and the zone they denote *)
+Definition tzif_accepts (d : bytes) : bool := tzif_v1_accepts d || tzif_v23_accepts d.
+Definition tzif_zone (d : bytes) : timezone := if byte_at d 4 =? 0 then tzif_v1_zone d else tzif_v23_zone d.
